@@ -159,10 +159,10 @@ def rule_operator_table(ctx):
                         fallible = False if arity == 1 else tab[op][1]
                         boolean = False if arity == 1 else tab[op][2]
                         ctx.check(R, key + "/operation", r["op"] == fname, "uses %s, reference %s" % (r["op"], fname), site(EI, a))
-                        ctx.check(R, key + "/argument-order", r["args"] == binds + [pname], "arguments %s, expected %s" % (r["args"], binds + [pname]), site(EI, a))
+                        ctx.check(R, key + "/argument-order", r["args"] in (binds + [pname], binds + ["env.prime()"]), "arguments %s, expected %s" % (r["args"], binds + [pname]), site(EI, a))
                         ctx.check(R, key + "/value-only-on-Ok", r["okcall"] == fallible, "fallible=%s, `.ok()` applied=%s" % (fallible, r["okcall"]), site(EI, a))
                         if boolean:
-                            ctx.check(R, key + "/boolean-result", r["ctor"] == "Boolean" and r["as_bool"] and r.get("value_from_op") and r.get("as_bool_modulus") == pname and "!" not in r["raw"].split("as_bool")[0][-2:], "comparison must yield Boolean { as_bool(result, p) }: %s" % r["raw"], site(EI, a))
+                            ctx.check(R, key + "/boolean-result", r["ctor"] == "Boolean" and r["as_bool"] and r.get("value_from_op") and r.get("as_bool_modulus") in (pname, "env.prime()") and "!" not in r["raw"].split("as_bool")[0][-2:], "comparison must yield Boolean { as_bool(result, p) }: %s" % r["raw"], site(EI, a))
                         else:
                             ctx.check(R, key + "/field-result", r["ctor"] == "FieldElement" and not r["as_bool"] and r.get("value_from_op"), r["raw"], site(EI, a))
                     else:
